@@ -685,7 +685,8 @@ func init() {
 	Register(&Prop{
 		ID:    "C16",
 		Title: "Sanitized parameters are injection-safe for the library's own parser",
-		Rule: "rapid draws (shape mode) a template from a grammar - select items `$n AS v`, `-$n`/`5 - $n`/`($n)` adjacency, WHERE with =, IN lists, " +
+		Rule: "[Dimensions added in rounds p-r of the seeded-defect evaluation: about 2% of the cases are templates with 9-140 placeholders: all used, one argument unused anywhere in the list, or the last one missing.] " +
+			"rapid draws (shape mode) a template from a grammar - select items `$n AS v`, `-$n`/`5 - $n`/`($n)` adjacency, WHERE with =, IN lists, " +
 			"BETWEEN, LIKE, 1-4 placeholders each used >=1 time with repeats - with decoys that must be left alone: `$n` inside '..' (with '' \\' \\\\ " +
 			"inside), \"..\", backtick identifiers, block comments of every spelling (/* */, /*x*/, /*/ */, /*// */, /** **/, bodies containing / // -- # /* and stars), `-- `, `#` and `//` comments; arguments: strings over a quote-hostile alphabet (' \\ \" ` -- /* # NUL " +
 			"newline Ctrl-Z multi-byte runes SQL keywords `$1`), int64 incl. extremes, finite float64 incl. tiny/huge, bool, nil. Oracle: the library " +
